@@ -776,7 +776,10 @@ impl World {
                 let prev_inc = self.accepted_pairs.iter().filter(|p| **p == pair_idx).count();
                 let new_idx = pair_idx + 1000 * prev_inc;
                 self.trace.push(vec![2, t, epi as i128, sid, size, 2, new_idx as i128, validated as i128, origin, kind, hflags]);
-                if self.p.get(k::RETRY, 0) != 0 && !validated && incoming.may_retry() {
+                let retry_mode = self.p.get(k::RETRY, 0);
+                // RETRY 1: retry unvalidated addresses; 2: retry whenever still possible (also when a
+                // NEW_TOKEN token already validated the address)
+                if ((retry_mode == 1 && !validated) || retry_mode == 2) && incoming.may_retry() {
                     let tr = self.eps[epi].ep.retry(incoming, &mut buf).unwrap();
                     let did_ = self.addr_id_of(tr.destination);
                     self.trace.push(vec![1, t, epi as i128, -1, did_, tr.size as i128, 0, 0, 1]);
